@@ -355,6 +355,22 @@ func TrimSeq(r *rand.Rand) *Grammar {
 	lt := func(e *Expr, mode int) *Expr { w := g.Mk(OpLTrim, e); w.C = byte(mode); return w }
 	rt := func(e *Expr) *Expr { w := g.Mk(OpRTrim, e); w.C = 2; return w }
 	elem := func() *Expr {
+		if r.Intn(6) == 0 {
+			// a "statement": an element of ambiguous length (either alternative order) followed by an optional terminator
+			// that is a rune or the END OF INPUT - a nested sequence one of whose paths ends with an end-of-input node
+			// while others end earlier
+			first := []*Expr{g.Mk(OpSeqOf, rn(), rn()), rn()}
+			if r.Intn(2) == 0 {
+				first[0], first[1] = first[1], first[0]
+			}
+			term := g.Mk(OpAny, rn(), g.Mk(OpEnd))
+			if r.Intn(2) == 0 {
+				term = g.Mk(OpOpt, term)
+			} else {
+				term = g.Mk(OpAny, term, g.Mk(OpEmpty))
+			}
+			return g.Mk(OpSeqOf, g.Mk(OpAny, first...), term)
+		}
 		switch r.Intn(12) {
 		case 0:
 			return rn()
